@@ -7,6 +7,7 @@ from __future__ import annotations
 
 import ast
 import copy
+import re
 from dataclasses import dataclass, field
 from typing import Optional
 
@@ -25,12 +26,42 @@ class TwinSpec:
 
 
 class _Strip(ast.NodeTransformer):
+    """erase awaits; mark the enclosing function's local variables so that two twins can be compared modulo a renaming of locals"""
+
+    def __init__(self, local_names=frozenset()):
+        self.local_names = local_names
+
     def visit_Await(self, node):
         return self.visit(node.value)
 
+    def visit_Name(self, node):
+        if node.id in self.local_names:
+            return ast.copy_location(ast.Name(id=f"\x01{node.id}\x02", ctx=node.ctx), node)
+        return node
+
+
+_MARK = re.compile("\x01(\\w+)\x02")
+_locals_cache: dict = {}
+_current_locals = frozenset()
+
+
+def _locals_of(fn) -> frozenset:
+    k = id(fn)
+    if k not in _locals_cache:
+        bound, banned = set(), set()
+        for n in ast.walk(fn):
+            if isinstance(n, ast.Name) and isinstance(n.ctx, ast.Store):
+                bound.add(n.id)
+            elif isinstance(n, (ast.Global, ast.Nonlocal)):
+                banned |= set(n.names)
+            elif isinstance(n, ast.arg):
+                banned.add(n.arg)
+        _locals_cache[k] = (frozenset(bound - banned), fn)  # keep fn alive so that id() stays unique
+    return _locals_cache[k][0]
+
 
 def _text(e, spec: TwinSpec) -> str:
-    t = " ".join(src(_Strip().visit(copy.deepcopy(e))).split())
+    t = " ".join(src(_Strip(_current_locals).visit(copy.deepcopy(e))).split())
     for a, b in spec.test_rename.items():
         t = t.replace(a, b)
     return t
@@ -167,11 +198,49 @@ def project_stmt(model, fi, st, spec) -> list:
 
 
 def project(model: Model, fi: FuncInfo, spec: TwinSpec) -> tuple:
+    global _current_locals
     body = [s for s in fi.node.body if not (isinstance(s, ast.Expr) and isinstance(s.value, ast.Constant))]
-    return tuple(project_block(model, fi, body, spec))
+    _current_locals = _locals_of(fi.node)
+    try:
+        return tuple(project_block(model, fi, body, spec))
+    finally:
+        _current_locals = frozenset()
+
+
+def _align(a, b, fwd: dict, back: dict):
+    """Pair the marked local names of two projections position by position (first pairing wins, kept injective)."""
+    if isinstance(a, str) and isinstance(b, str):
+        ma, mb = _MARK.findall(a), _MARK.findall(b)
+        if len(ma) == len(mb):
+            for x, y in zip(ma, mb):
+                if y not in back and x not in fwd:
+                    back[y] = x
+                    fwd[x] = y
+    elif isinstance(a, tuple) and isinstance(b, tuple):
+        for x, y in zip(a, b):
+            _align(x, y, fwd, back)
+
+
+def _rewrite(x, back: Optional[dict]):
+    if isinstance(x, str):
+        if back is None:
+            return _MARK.sub(lambda m: m.group(1), x)
+        return _MARK.sub(lambda m: back.get(m.group(1), m.group(1)), x)
+    if isinstance(x, tuple):
+        return tuple(_rewrite(y, back) for y in x)
+    return x
+
+
+def unmark(p):
+    return _rewrite(p, None)
 
 
 def first_difference(a, b, path="") -> Optional[str]:
+    """None when the projections are equal up to a consistent renaming of local variables."""
+    if path == "":
+        fwd, back = {}, {}
+        _align(a, b, fwd, back)
+        a, b = _rewrite(a, None), _rewrite(b, back)
     if a == b:
         return None
     if isinstance(a, tuple) and isinstance(b, tuple) and a and b and isinstance(a[0], str) and isinstance(b[0], str):
@@ -213,6 +282,10 @@ def fmt(ev) -> str:
     if ev[0] == "if":
         return f"if {ev[1]}"
     return ev[0] + ("" if len(ev) == 1 else " " + str(ev[1])[:60])
+
+
+def _count_events_dummy():
+    pass
 
 
 def count_events(p) -> int:
